@@ -158,9 +158,9 @@ def cat (f : FsCfg) (env : Env) (name : Name) : M Bytes := do
   | some h =>
     if h.typeflag == tfDir then M.wedge .stuck
     else if f.c.emptyDecodeFails && h.size == 0 && (h.pax.get Gen.recSTFSRecordUncompressedSize).isNone then
-      -- a record without content under a codec: decoding the empty stream fails and the
-      -- streaming goroutine turns the error into a panic (finding F18)
-      M.fail .crash
+      -- a record without content under a codec: decoding the empty stream fails and the read
+      -- returns that error (finding F30)
+      M.fail .other
     else restoreContent f o.path
   | none => restoreContent f o.path
 
